@@ -196,6 +196,10 @@ for _fn in ("print_lambda_expr", "print_record_expr", "print_macro_expansion"):
 fixed("F78", "C15", "6f307f1", "C15.hash|iter|compiler::typing::InferContext::register_type_declarations|HashMap|for-insert-foreign-key", "`type A = Foo | Bar  type B = Foo | Baz  fn dsp(){ match Foo { Foo => 1.0, Bar => 2.0 } }`: the type declarations were visited in HashMap order and each constructor name inserted into one map, so which type `Foo` belonged to changed from run to run: 4 of 8 runs printed 1.0, the others rejected the match as not exhaustive (findings/repro/F78_shared_constructor_name.mmm)")
 
 
+# ---- F79 (the scratch-local rule, written for a seeded change, reported it on the unchanged tree)
+fixed("F79", "C03", "d8514e8", "C05.scratch|function-scoped|alloc_ptr_save_local", "`fn dsp(){ let k = 1.0  let f = | | { k + 1.0 }  f() }` on WASM, dsp called directly: emit_runtime_alloc used the local that holds the entry function's saved allocator pointer as its temporary, so the restore at `Return` wrote back the end of the last allocation; `__alloc_ptr` read 1024, 1056, 1088, ... after successive calls instead of staying at 1024 (the module's own protection against per-sample growth never worked; only the host's rewind in WasmDspRuntime::run_dsp hid it) (findings/repro/F79_alloc_save_slot/)")
+
+
 def main():
     extra = os.path.join(HERE, "tools", "findings_more.py")
     if os.path.exists(extra):
